@@ -86,12 +86,17 @@ theorem constructNode_spec (cfg : Cfg) (front : Bool) (x : Int) (s : XList) (l :
                 cases front <;>
                   simp [count_owned, hfr, List.count_cons, List.count_append, List.map_append] <;> omega
 
-theorem popFront_spec (s : XList) (l : Ledger) (f : List Nat) (n : Nat)
+theorem popFront_spec (cfg : Cfg) (s : XList) (l : Ledger) (f : List Nat) (n : Nat)
+    (hf : s.head = none → s.nodes = [])
     (h : Holds l s.owned f n) :
-    Holds (popFront s l).2.2 (popFront s l).2.1.owned f n ∧ (popFront s l).2.1.wild = s.wild ∧
-    ((popFront s l).1 = .ub → s.nodes = []) := by
+    Holds (popFront cfg s l).2.2 (popFront cfg s l).2.1.owned f n ∧ (popFront cfg s l).2.1.wild = s.wild ∧
+    ((popFront cfg s l).1 = .ub → s.nodes = []) := by
   obtain ⟨g1, g2, g3, g4, g5, g6, g7, _⟩ := getListHead_spec s l f n h
   unfold popFront
+  split
+  · rename_i hc
+    refine ⟨h, rfl, fun _ => hf ?_⟩
+    simp only [Bool.and_eq_true, Option.isNone_iff_eq_none] at hc; exact hc.2
   cases hg : getListHead s l with
   | mk o r =>
     obtain ⟨s1, l1⟩ := r
@@ -112,12 +117,17 @@ theorem popFront_spec (s : XList) (l : Ledger) (f : List Nat) (n : Nat)
           simp [count_owned, hn, List.count_cons]; omega
         exact holds_free this
 
-theorem popBack_spec (s : XList) (l : Ledger) (f : List Nat) (n : Nat)
+theorem popBack_spec (cfg : Cfg) (s : XList) (l : Ledger) (f : List Nat) (n : Nat)
+    (hf : s.head = none → s.nodes = [])
     (h : Holds l s.owned f n) :
-    Holds (popBack s l).2.2 (popBack s l).2.1.owned f n ∧ (popBack s l).2.1.wild = s.wild ∧
-    ((popBack s l).1 = .ub → s.nodes = []) := by
+    Holds (popBack cfg s l).2.2 (popBack cfg s l).2.1.owned f n ∧ (popBack cfg s l).2.1.wild = s.wild ∧
+    ((popBack cfg s l).1 = .ub → s.nodes = []) := by
   obtain ⟨g1, g2, g3, g4, g5, g6, g7, _⟩ := getListHead_spec s l f n h
   unfold popBack
+  split
+  · rename_i hc
+    refine ⟨h, rfl, fun _ => hf ?_⟩
+    simp only [Bool.and_eq_true, Option.isNone_iff_eq_none] at hc; exact hc.2
   cases hg : getListHead s l with
   | mk o r =>
     obtain ⟨s1, l1⟩ := r
@@ -181,55 +191,6 @@ theorem isEmpty_spec (cfg : Cfg) (s : XList) (l : Ledger) (f : List Nat) (n : Na
   · obtain ⟨g1, g2, _, _, g5, _⟩ := getListHead_spec s l f n h
     exact ⟨g1, g2, g5⟩
 
-theorem step_spec (cfg : Cfg) (s : XList) (op : Op) (l : Ledger) (f : List Nat) (n : Nat)
-    (hc : cfg.nextInit = true) (hwild : s.wild = false) (h : Holds l s.owned f n) :
-    Holds (step cfg s l op).2.2 (step cfg s l op).2.1.owned f n ∧ (step cfg s l op).2.1.wild = false ∧
-    ((step cfg s l op).1 = .ub → (op = .popFront ∨ op = .popBack) ∧ s.nodes = []) := by
-  cases op with
-  | pushBack x =>
-    obtain ⟨a, b, c⟩ := constructNode_spec cfg false x s l f n hc hwild h
-    exact ⟨a, b, fun hu => absurd hu c⟩
-  | pushFront x =>
-    obtain ⟨a, b, c⟩ := constructNode_spec cfg true x s l f n hc hwild h
-    exact ⟨a, b, fun hu => absurd hu c⟩
-  | popFront =>
-    obtain ⟨a, b, c⟩ := popFront_spec s l f n h
-    exact ⟨a, by simp only [step]; rw [b, hwild], fun hu => ⟨Or.inl rfl, c hu⟩⟩
-  | popBack =>
-    obtain ⟨a, b, c⟩ := popBack_spec s l f n h
-    exact ⟨a, by simp only [step]; rw [b, hwild], fun hu => ⟨Or.inr rfl, c hu⟩⟩
-  | clear =>
-    obtain ⟨a, b, c⟩ := clear_spec cfg s l f n h
-    exact ⟨a, by simp only [step]; rw [b, hwild], fun hu => absurd hu c⟩
-  | empty =>
-    obtain ⟨a, b, c⟩ := isEmpty_spec cfg s l f n h
-    exact ⟨a, by simp only [step]; rw [b, hwild], fun hu => absurd hu c⟩
-
-theorem run_spec (cfg : Cfg) (ops : List Op) (s : XList) (l : Ledger) (f : List Nat) (n : Nat)
-    (hc : cfg.nextInit = true) (hwild : s.wild = false) (h : Holds l s.owned f n) :
-    Holds (run cfg ops s l).2.2 (run cfg ops s l).2.1.owned f n ∧ (run cfg ops s l).2.1.wild = false := by
-  induction ops generalizing s l with
-  | nil => exact ⟨h, hwild⟩
-  | cons op ops ih =>
-    obtain ⟨a, b, _⟩ := step_spec cfg s op l f n hc hwild h
-    simp only [run]
-    cases hs : step cfg s l op with
-    | mk o r =>
-      obtain ⟨s1, l1⟩ := r
-      rw [hs] at a b
-      cases o with
-      | ub => exact ⟨a, b⟩
-      | ok => exact ih s1 l1 b a
-      | oom => exact ih s1 l1 b a
-
-theorem count_flatMap_nodes (ns : List (Nat × Elem)) (a : Nat) :
-    (ns.flatMap fun n => [n.2.blk, n.1]).count a = (ns.map (·.1)).count a + (ns.map (·.2.blk)).count a := by
-  induction ns with
-  | nil => rfl
-  | cons p ns ih =>
-    simp only [List.flatMap_cons, List.count_append, ih, List.map_cons, List.count_cons, List.count_nil]
-    omega
-
 /-- nothing is linked or parked on the free list before the sentinel exists -/
 def HeadFirst (s : XList) : Prop := s.head = none → s.nodes = [] ∧ s.free = []
 
@@ -286,7 +247,10 @@ theorem step_headFirst (cfg : Cfg) (s : XList) (op : Op) (l : Ledger) (hf : s.He
             · exact g1
             · split <;> simp_all [HeadFirst]
     | popFront =>
-      simp only [step, popFront, hg]
+      simp only [step, popFront]
+      split
+      · exact hf
+      rw [hg]
       cases o with
       | ub => exact g1
       | oom => exact g1
@@ -295,7 +259,10 @@ theorem step_headFirst (cfg : Cfg) (s : XList) (op : Op) (l : Ledger) (hf : s.He
         simp only
         split <;> simp_all [HeadFirst]
     | popBack =>
-      simp only [step, popBack, hg]
+      simp only [step, popBack]
+      split
+      · exact hf
+      rw [hg]
       cases o with
       | ub => exact g1
       | oom => exact g1
@@ -335,6 +302,56 @@ theorem run_headFirst (cfg : Cfg) (ops : List Op) (s : XList) (l : Ledger) (hf :
       | ub => exact a
       | ok => exact ih s1 l1 a
       | oom => exact ih s1 l1 a
+
+theorem step_spec (cfg : Cfg) (s : XList) (op : Op) (l : Ledger) (f : List Nat) (n : Nat)
+    (hc : cfg.nextInit = true) (hwild : s.wild = false) (hf : s.HeadFirst) (h : Holds l s.owned f n) :
+    Holds (step cfg s l op).2.2 (step cfg s l op).2.1.owned f n ∧ (step cfg s l op).2.1.wild = false ∧
+    ((step cfg s l op).1 = .ub → (op = .popFront ∨ op = .popBack) ∧ s.nodes = []) := by
+  cases op with
+  | pushBack x =>
+    obtain ⟨a, b, c⟩ := constructNode_spec cfg false x s l f n hc hwild h
+    exact ⟨a, b, fun hu => absurd hu c⟩
+  | pushFront x =>
+    obtain ⟨a, b, c⟩ := constructNode_spec cfg true x s l f n hc hwild h
+    exact ⟨a, b, fun hu => absurd hu c⟩
+  | popFront =>
+    obtain ⟨a, b, c⟩ := popFront_spec cfg s l f n (fun hh => (hf hh).1) h
+    exact ⟨a, by simp only [step]; rw [b, hwild], fun hu => ⟨Or.inl rfl, c hu⟩⟩
+  | popBack =>
+    obtain ⟨a, b, c⟩ := popBack_spec cfg s l f n (fun hh => (hf hh).1) h
+    exact ⟨a, by simp only [step]; rw [b, hwild], fun hu => ⟨Or.inr rfl, c hu⟩⟩
+  | clear =>
+    obtain ⟨a, b, c⟩ := clear_spec cfg s l f n h
+    exact ⟨a, by simp only [step]; rw [b, hwild], fun hu => absurd hu c⟩
+  | empty =>
+    obtain ⟨a, b, c⟩ := isEmpty_spec cfg s l f n h
+    exact ⟨a, by simp only [step]; rw [b, hwild], fun hu => absurd hu c⟩
+
+theorem run_spec (cfg : Cfg) (ops : List Op) (s : XList) (l : Ledger) (f : List Nat) (n : Nat)
+    (hc : cfg.nextInit = true) (hwild : s.wild = false) (hf : s.HeadFirst) (h : Holds l s.owned f n) :
+    Holds (run cfg ops s l).2.2 (run cfg ops s l).2.1.owned f n ∧ (run cfg ops s l).2.1.wild = false := by
+  induction ops generalizing s l with
+  | nil => exact ⟨h, hwild⟩
+  | cons op ops ih =>
+    obtain ⟨a, b, _⟩ := step_spec cfg s op l f n hc hwild hf h
+    have hf' := step_headFirst cfg s op l hf
+    simp only [run]
+    cases hs : step cfg s l op with
+    | mk o r =>
+      obtain ⟨s1, l1⟩ := r
+      rw [hs] at a b hf'
+      cases o with
+      | ub => exact ⟨a, b⟩
+      | ok => exact ih s1 l1 b hf' a
+      | oom => exact ih s1 l1 b hf' a
+
+theorem count_flatMap_nodes (ns : List (Nat × Elem)) (a : Nat) :
+    (ns.flatMap fun n => [n.2.blk, n.1]).count a = (ns.map (·.1)).count a + (ns.map (·.2.blk)).count a := by
+  induction ns with
+  | nil => rfl
+  | cons p ns ih =>
+    simp only [List.flatMap_cons, List.count_append, ih, List.map_cons, List.count_cons, List.count_nil]
+    omega
 
 theorem destroy_spec (s : XList) (l : Ledger) (f : List Nat) (n : Nat) (hwild : s.wild = false)
     (hf : s.HeadFirst) (h : Holds l s.owned f n) :
